@@ -31,7 +31,7 @@ NS = {
 }
 ALL_FEATURES = ["colruns", "rowruns", "s-single", "s-noc", "paragraphs", "spans", "emptyp", "stored", "utf16",
                 "latin1", "colstyle", "trailing-empty-run", "annotations", "embedded-object", "links", "header-rows", "row-groups",
-                "covered-cells", "no-value-type"]
+                "covered-cells", "no-value-type", "no-mimetype"]
 
 
 def _escape(text):
@@ -240,6 +240,9 @@ def archive(content_bytes, features=(), members=None):
                     '</office:document-content>' % " ".join('xmlns:%s="%s"' % item for item in sorted(NS.items())))
         files[1:1] = [("Object 1/content.xml", embedded.encode("utf-8")),
                       ("Object 1/styles.xml", b'<?xml version="1.0" encoding="UTF-8"?><styles/>')]
+    if "no-mimetype" in features:
+        # the mimetype member is a recommendation for packages, re-zipped documents and small exporters lack it
+        files = [entry for entry in files if entry[0] != "mimetype"]
     overrides = dict(members or {})
     with zipfile.ZipFile(buffer, "w") as zip_file:
         for name, data in files:
